@@ -123,6 +123,14 @@ func buildSumTree(r *rand.Rand, base string, l model.Layout, now int64, c *fw.Ct
 			name := fmt.Sprintf("h%02d.wsp", i)
 			names = append(names, name)
 			li := l
+			if di == 1 && i == 0 {
+				// same archives, another aggregation method and xFilesFactor: still "files with identical layouts"
+				li.Method = 1 + (l.Method+2)%6
+				li.Xff = []float32{0, 0.25, 0.75}[r.Intn(3)]
+				if c != nil {
+					c.Count("items_with_files_of_different_method_or_xff", 1)
+				}
+			}
 			if di == 0 && i == 1 {
 				// one source of the first item is a symbolic link to a whisper file stored elsewhere
 				real := filepath.Join(base+"-real", d, name)
